@@ -498,6 +498,10 @@ func (r *seqRun) run(base string) error {
 
 func (r *seqRun) reopen(op seqOp, ev core.Ev) {
 	c := r.sc.Cfg
+	for _, f := range []string{"cerr", "cerr2", "oerr", "werr", "want", "open_snap", "open_scan"} {
+		ev[f] = ""
+	}
+	ev["cmp"], ev["dirsame"], ev["bk_snap"], ev["bk_scan"], ev["bk_live"], ev["bits"] = false, true, [][2]int64{}, [][2]int64{}, [][2]int64{}, r.bits
 	bkLive := r.liveBuckets()
 	cerr := r.st.Close()
 	ev["cerr"] = errStr(cerr)
